@@ -54,7 +54,10 @@ def _dir_flags(b):
     k = [Fr(x) for x in b['knots']]
     p = b['order']
     s, e = k[p - 1], k[len(k) - p]
+    # multiplicity as the library counts it: copies of a knot that agree within the knot tolerance (1e-10) are one knot
+    tol = Fr(1, 10 ** 10)
     m = Counter(k)
+    m = {x: sum(v for y, v in m.items() if abs(y - x) <= tol) for x in m}
     return dict(jump=any(v >= p and s < x < e for x, v in m.items()),
                 nonopen=(b['periodic'] < 0 and (k[0] < s or k[-1] > e)),
                 periodic=b['periodic'] >= 0)
